@@ -1,5 +1,6 @@
 import Driver.Drv.Ban
 import Driver.Drv.BlockMgr
+import Driver.Drv.CFHeaders
 import Driver.Drv.Dispatcher
 import Driver.Drv.Lru
 import Driver.Drv.PushTx
@@ -10,6 +11,7 @@ namespace Driver
 def drivers : List (String × CaseFn) := [
   ("ban", Driver.Drv.Ban.runCase),
   ("blockmgr", Driver.Drv.BlockMgr.runCase),
+  ("cfheaders", Driver.Drv.CFHeaders.runCase),
   ("dispatcher", Driver.Drv.Dispatcher.runCase),
   ("lru", Driver.Drv.Lru.runCase),
   ("pushtx", Driver.Drv.PushTx.runCase),
